@@ -1,6 +1,7 @@
 import Darling.SyntaxCodec
 import Darling.Shape
 import Darling.Val
+import Darling.Decl
 open Sexp Codec SyntaxCodec
 
 namespace Driver.C18
@@ -38,6 +39,14 @@ def answer (c : Sexp) : String :=
              | .ok d => Sexp.str d
              | _ => atom "panic"
            toString (tagged "api" [Sexp.bool (set.containsShape sh), check, disp, Sexp.bool set.isEmpty])
+       | _, _ => "bad-case")
+  | .list [.atom "c18shape", .atom style, n, .str _] =>
+      -- every `AsShape` implementor names a body's shape alike: the style, one unnamed field = newtype
+      (match (match style with | "named" => some Style.named | "tuple" => some Style.tuple | "unit" => some Style.unit | _ => none), n.asNat? with
+       | some st, some n =>
+           let name := match st.shape n with
+             | .named => "named" | .tuple => "tuple" | .unit => "unit" | .newtype => "newtype"
+           toString (tagged "shape" [atom name])
        | _, _ => "bad-case")
   | .list [.atom "c18recv", .atom kind, supports, body] =>
       (match metaOf? supports, bodyOf? body with
